@@ -16,8 +16,14 @@ def session(spec):
     paths = {"f1": os.path.join(d, "f1"), "f2": os.path.join(d, "f2"), "d": os.path.join(d, "d"), "g": os.path.join(d, "d", "g"),
              "e": os.path.join(d, "d", "e"), "h": os.path.join(d, "h")}
     for n in ("f1", "f2", "g"): open(paths[n], "w").write("x")
+    if spec.get("verbose"):
+        rt.VERBOSE = 1                      # a chatty tracker (its messages go to stderr) must behave like a silent one
     rt.ensure_running()
     tracker_pid = rt._resource_tracker._pid
+    if spec.get("early_signal"):
+        # a signal sent to the whole process group (Ctrl-C, kill -TERM -pgid) while the tracker is still starting up: the
+        # tracker ignores SIGINT / SIGTERM, whenever they arrive
+        os.kill(tracker_pid, signal.SIGTERM); os.kill(tracker_pid, signal.SIGINT)
     rec = {"problems": [], "synced": 0, "tracker_pid": tracker_pid}
     nsent = [0]
 
@@ -126,7 +132,7 @@ def main():
     out = []
     for hi, hist in enumerate(job["hists"]):
         d = os.path.join(job["dir"], "a%d" % hi); os.makedirs(d)
-        jf = os.path.join(d, "s.json"); json.dump({"dir": os.path.join(d, "w"), "hist": hist, "kill": bool(job.get("kill")) and hi % 2 == 1}, open(jf, "w"))
+        jf = os.path.join(d, "s.json"); json.dump({"dir": os.path.join(d, "w"), "hist": hist, "kill": bool(job.get("kill")) and hi % 2 == 1, "early_signal": hi % 4 == 0, "verbose": hi % 4 == 2}, open(jf, "w"))
         os.makedirs(os.path.join(d, "w"))
         with open(os.path.join(d, "log"), "w") as lf:
             try: subprocess.run([sys.executable, __file__, jf], stdout=lf, stderr=lf, stdin=subprocess.DEVNULL, timeout=60)
